@@ -565,6 +565,21 @@ def value_rules(crate, res):
         if len(kinds) != 1 or len(sers) != 1 or strip_refs(canon(v, v.origin(v.blocks[kinds[0]]["term"]["args"][0]))) != ("param", 1) \
                 or strip_refs(canon(v, v.origin(v.blocks[sers[0]]["term"]["args"][0]))) != ("param", 1):
             fs.append(fnd("C14.VALUE", v, "the kind described and the text quoted are not taken from the same value"))
+        # the quoted text is JSON text: parts of the value rendered by hand (Display / Debug of what is inside it) are not the
+        # serialiser's output.  Debug of a string is a verdict: Rust escapes control and non-printable characters differently.
+        for bb2, c2 in v.calls():
+            if c2.fn is None:
+                continue
+            nm2 = c2.path or ""
+            if "fmt::rt::Argument" in nm2 and c2.name in ("new_debug", "new_display"):
+                a2 = canon(v, v.origin(v.blocks[bb2]["term"]["args"][0]))
+                direct = term_mentions(a2, lambda x: x == ("param", 1)) and not term_mentions(a2, lambda x: x[0] == "call")
+                if direct and c2.name == "new_debug":
+                    fs.append(fnd("C14.VALUE", v, "a part of the offending value is quoted with Rust's Debug formatting, which is not JSON text (control and non-printable characters are escaped differently)", bb2))
+                elif direct:
+                    f_ = fnd("C14.VALUE", v, "a part of the offending value is rendered by hand (Display) instead of by the JSON serialiser: whether the text is the same was not read: not recognised (undecided)", bb2)
+                    f_.undecided = True
+                    fs.append(f_)
     res.add("C14.VALUE", 1, fs)
 
 
